@@ -298,7 +298,10 @@ ListExpect(T, nbits, vl, bytes) ==
       v == RawOf(T, nbits, bytes)
       names == VlLookup(vl, v)
   IN IF base.k # "val" THEN base           \* null / error exactly as for the plain type ...
-     ELSE IF names = {} THEN base          \* ... in range but not listed: falls back to the number
+     ELSE IF names = {} THEN               \* ... in range but not listed: falls back to the number;
+       (* on a base type without replacement pattern (REQ: bits, U1L, ...) an unlisted 0 may also be shown as *)
+       (* the null value: the upstream suite asserts this (test_data.cpp: "x,,bi3:2,1=on" decodes 00 to "-")  *)
+       (IF "REQ" \in T.fl /\ v = 0 THEN NullOrVal(base.texts \cup {NULLTXT}) ELSE base)
      ELSE [k |-> "listed", v |-> v, names |-> names]
 (* outside the documented range a list field may also fall back to showing the number *)
 ListRelax(e, T, nbits, bytes) ==
